@@ -2,6 +2,7 @@
 
    run  <k=v>...   -> verdict=.. fails=.. racy=.. unmod=.. change=.. tree=.. probes=.. upd=..
    cli  <k=v>... jobs=<work>|<file>;...   -> exit=<0|1> verdicts=pass,fail:3,... racy=.. unmod=..
+   covered <k=v>... file=<hex> file2=<hex>  -> 1 when the restricted fix-point theorem applies (rerun_covered)
    tok  <env> <line>        -> ok <w>,<w>,... | err
    re   <pattern> <text>    -> unsupported | m=<0|1> n=<count> safe=<0|1>
    clean/base/dir <hex>, join <hex> <hex>  -> <hex>
@@ -116,6 +117,10 @@ let do_cli kv =
 let () = serve (function
   | "run" :: r -> do_run (kv_of_tokens r)
   | "cli" :: r -> do_cli (kv_of_tokens r)
+  | "covered" :: r ->
+      let kv = kv_of_tokens r in
+      b01 (rerun_covered (config_of kv) (bytes_of_hex (get kv "work" "-")) (env_of kv)
+             (bytes_of_hex (get kv "file" "-")) (bytes_of_hex (get kv "file2" "-")))
   | ["tok"; e; l] ->
       let env = List.filter_map (fun h -> split_eq_bytes (bytes_of_hex h)) (split_on ',' e) in
       (match tokenise env (bytes_of_hex l) with Some ws -> "ok " ^ hexlist ws | None -> "err")
